@@ -250,6 +250,30 @@ example : (setActiveModem 0 0x80 { activeModem := 0, expected := 101, received :
 example : (setActiveModem 5 0 { activeModem := 0, opmod := 1, expected := 120, received := 30 }).received = 0 := by decide
 example : (setActiveModem 3 0 { activeModem := 0, opmod := 1, expected := 101, received := 64 }).expected = 101 := by decide
 
+/-- **A frame queued under FSK may be sent as OOK and vice versa** (both run the same packet engine):
+    entering transmit mode - or any mode other than receive - in FSK or OOK from FSK or OOK keeps the
+    frame progress (expected length, bytes handed over so far) exactly as it was. -/
+theorem C15_fsk_ook_change_keeps_frame (opmod modulation : Nat) (h : Handle)
+    (hm : modulation = Gen.SX127x_MODULATION_FSK ∨ modulation = Gen.SX127x_MODULATION_OOK)
+    (ha : h.activeModem = Gen.SX127x_MODULATION_FSK ∨ h.activeModem = Gen.SX127x_MODULATION_OOK)
+    (hop : opmod ≠ Gen.SX127x_MODE_RX_CONT ∧ opmod ≠ Gen.SX127x_MODE_RX_SINGLE) :
+    (setActiveModem opmod modulation h).expected = h.expected ∧
+    (setActiveModem opmod modulation h).received = h.received ∧
+    (setActiveModem opmod modulation h).packet = h.packet := by
+  have hnot : ¬ (CrossesModems h modulation ∨ StartsFskRx h opmod modulation) := by
+    intro hx
+    rcases hx with hc | hs
+    · unfold CrossesModems at hc
+      apply hc
+      have h1 : ¬ (h.activeModem = Gen.SX127x_MODULATION_LORA) := by
+        rcases ha with e | e <;> rw [e] <;> decide
+      have h2 : ¬ (modulation = Gen.SX127x_MODULATION_LORA) := by
+        rcases hm with e | e <;> rw [e] <;> decide
+      exact propext ⟨fun a => absurd a h1, fun a => absurd a h2⟩
+    · exact hs.2.1.elim hop.1 hop.2
+  rw [setActiveModem_keep opmod modulation h hnot]
+  exact ⟨rfl, rfl, rfl⟩
+
 section failure
 open DM
 theorem KeepH_swrite (reg : Nat) (d : List UInt8) : KeepH (swrite reg d) := ⟨fun _ _ => by simp [DM.swrite, Prog.fwp]⟩
